@@ -12,6 +12,13 @@
 //! (op classes) — used by the evidence pass, not by the fuzzer.
 #![no_main]
 
+#[cfg(feature = "guard-alloc")]
+#[path = "../../harness/lmcheck/src/guard.rs"]
+mod guard;
+#[cfg(feature = "guard-alloc")]
+#[global_allocator]
+static GLOBAL: guard::GuardAlloc = guard::GuardAlloc;
+
 use std::io::Write;
 use std::panic::{catch_unwind, AssertUnwindSafe};
 use std::sync::Once;
@@ -211,7 +218,9 @@ where
                 }
                 // --- new scoring matrix
                 5 => {
-                    let width = 1 + (arg as usize) % 40;
+                    // mostly 1..40 rows; sometimes a motif of 90..389 rows, i.e. nearly as long as (or longer than)
+                    // the sequence, so that there are fewer valid positions than striped rows
+                    let width = if arg >= 232 { 90 + (arg as usize - 232) * 13 } else { 1 + (arg as usize) % 40 };
                     let seed = u.arbitrary::<u64>().unwrap_or(3);
                     w.pssm = make_pssm::<A>(width, seed, arg % 4 == 0);
                     stats.ops.push("new-pssm");
